@@ -1038,6 +1038,15 @@ class Escape:
                     except NotConst:
                         return False
                 return self.nonneg(f, it.args[0], at, depth + 1)
+            if d in ("itertools.count", "count") and idx is None:
+                # count(start[, step]): start, start + step, ... - non-negative when start >= 0 and step > 0
+                if len(it.args) > 1:
+                    try:
+                        if const_eval(it.args[1]) <= 0:
+                            return False
+                    except NotConst:
+                        return False
+                return True if not it.args else self.nonneg(f, it.args[0], at, depth + 1)
             if d in ("list", "tuple", "sorted", "set", "iter", "reversed") and it.args:
                 return self._elems_nonneg(f, it.args[0], at, idx, depth + 1)
             if d == "enumerate" and it.args:
